@@ -225,6 +225,7 @@ class Machine:
         self.w = World(bytes.fromhex(case["fm0"]) if case.get("fm0") is not None else None)
         self.s = Sched(n)
         self.tr = [[] for _ in range(n)]
+        self.glob = []                # all operations in the order they happened
         self.et_i = [0] * n
         self.fm_i = [0] * n
         self.et_fallback = [None] * n
@@ -233,6 +234,7 @@ class Machine:
 
     def emit(self, tok):
         self.tr[self.s.pid()].append(tok)
+        self.glob.append((self.s.pid(), tok))
 
     def kind(self, path):
         if path == PIN:
@@ -596,11 +598,13 @@ def observe(m, objs, info):
     for pid in range(n):
         tr = m.tr[pid]
         alive = m.phase[pid] not in ("done", "failed")
-        member = install = False
+        member = install = joiner = False
         for t in tr:
             if t == "rename:ok":
                 member = install = True
-            elif t.startswith("open_") and t.endswith(":ok") and "rename:fail" in tr:
+            elif t == "rename:fail":
+                joiner = True
+            elif t.startswith("open_") and t.endswith(":ok") and joiner:
                 member = True
             elif t.startswith("remove_member") or t == "rmtree_lock":
                 member = False
@@ -614,3 +618,219 @@ def observe(m, objs, info):
             "win": info.get(pid) if m.phase[pid] == "running" else None,
         })
     return {"procs": st, "attached": w.attached, "pin": w.pins.get(PIN)}
+
+
+def run_impl(case):
+    """returns (per-participant traces, final observation, list of observations after every prefix)"""
+    m = Machine(case)
+    n = len(case["cfgs"])
+    objs, info = {}, {}
+    with installed(m):
+        threads = [threading.Thread(target=participant, args=(m, pid, objs, info), daemon=True) for pid in range(n)]
+        for t in threads:
+            t.start()
+        for pid in range(n):
+            m.s.settle(pid)
+        obs = [observe(m, objs, info)]
+        for pid in case["sched"]:
+            if 0 <= pid < n:
+                m.s.grant(pid)
+            obs.append(observe(m, objs, info))
+        m.s.abandon()
+        for t in threads:
+            t.join(30)
+        if any(t.is_alive() for t in threads):
+            raise RuntimeError("participant thread did not end")
+    return m, objs, info, obs
+
+
+def first(obs, bad):
+    for k, o in enumerate(obs):
+        if bad(o):
+            return k
+    return None
+
+
+def clauses(obs):
+    """the property text on the implementation's states: index of the first prefix violating each clause"""
+    def ed(o):
+        ets = [p["et"] for p in o["procs"] if p["member"]]
+        return len(ets) != len(set(ets))
+
+    def si(o):
+        return sum(1 for p in o["procs"] if p["install"]) > 1
+
+    def iw(o):
+        return any(p["running"] and not (o["attached"] is not None and o["pin"] == o["attached"] and p["table"] == o["pin"])
+                   for p in o["procs"])
+
+    def fw(o):
+        ws = [(p["win"][0], p["win"][0] + 4096 * (len(p["win"][1]) + 1)) for p in o["procs"] if p["running"]]
+        return any(a[0] < b[1] and b[0] < a[1] for i, a in enumerate(ws) for b in ws[i + 1:])
+    return {"ed": first(obs, ed), "si": first(obs, si), "iw": first(obs, iw), "fw": first(obs, fw)}
+
+
+def show(case, m, objs, info, v):
+    n = len(case["cfgs"])
+    w = m.w
+    parts = []
+    for pid in range(n):
+        ph = m.phase[pid].split("/")[0]
+        status = ph if ph in ("done", "failed", "running") else "active"
+        pe = objs.get(pid)
+        fl = getattr(pe, "fmmu_lock_file", None)
+        no = 0
+        if fl is not None and hasattr(fl, "base_addr"):
+            k = len(info[pid][1]) if isinstance(info.get(pid), tuple) else 0
+            no = (fl.base_addr - 4096 * k) >> 22
+        tab = w.maps.get((pid, getattr(pe, "programs", None)))
+        parts.append(" ".join(m.tr[pid]) + f" # {status} et={pe.ethertype} no={no} progs={'-' if tab is None else tab}")
+    mem = w.members()
+    d = "-" if mem is None else "[" + ",".join(f"{nm.split('.')[0]}:{o}" for nm, o in mem) + "]"
+    fm = w.fm()
+    opt = lambda x: "-" if x is None else str(x)
+    fmnode = w.lookup(FM)
+    lock = None if fmnode is None else w.reclock.get(id(fmnode))
+    sysl = (f"dir={d} pin={opt(w.pins.get(PIN))} att={opt(w.attached)} mbx={'true' if w.lookup(MBX) is not None else 'false'} "
+            f"fm={'-' if fm is None else 'x' + fm.hex()} lock={opt(lock)}")
+    viol = " ".join(f"{k}={opt(v[k])}" for k in ("ed", "si", "iw", "fw"))
+    return " ; ".join(parts) + " ;; " + sysl + " ;; " + viol
+
+
+def predicates(case, glob):
+    """defect classes as predicates on the schedule (= on the order of operations it produces)"""
+    n = len(case["cfgs"])
+    late = [False] * n       # removed its member file, has not yet finished remove(programs)
+    started = [False] * n    # past the start section (obj_get ok / obj_pin ok) or ended
+    creating = None          # pid between the O_EXCL create of the bitmap file and its initialising write
+    race = window = rmtree = False
+    for pid, t in glob:
+        if t.startswith(("mkdtemp", "open_", "rename", "rmtree_tmp", "obj_get", "create_map", "attach", "obj_pin")) \
+                or (t.startswith("remove_pin") and not late[pid]):
+            if any(late[q] for q in range(n) if q != pid):
+                race = True
+        if t == "remove_member:ok" and "leave" in [x for q, x in glob if q == pid]:
+            late[pid] = True
+        if t in ("rmdir:fail",) or (t.startswith("remove_pin") and late[pid]):
+            late[pid] = False
+        if t.startswith("fm_") and creating is not None and pid != creating:
+            window = True
+        if t == "fm_open:created":
+            creating = pid
+        if t == "fm_write":
+            creating = None
+        if t == "rmtree_lock":
+            rmtree = True
+    return {"leaver-starter-race": race, "fmmu-create-window": window, "installer-fault-rmtree": rmtree,
+            "fmmu-window-overflow": any(c["naddr"] >= WINDOW_GROUPS for c in case["cfgs"])}
+
+
+WINDOW_GROUPS = (1 << 22) // (1 << 12)   # property text: "10 bits for sync groups within a process"
+
+
+def evaluate(ctx, case):
+    """real code under the case's schedule + the property oracle; returns the canonical line"""
+    import logging
+    logging.disable(logging.CRITICAL)
+    try:
+        m, objs, info, obs = run_impl(case)
+    finally:
+        logging.disable(logging.NOTSET)
+    v = clauses(obs)
+    pr = predicates(case, m.glob)
+    line = show(case, m, objs, info, v)
+    seen = f"first violating prefix per clause {v}; classes {sorted(k for k, b in pr.items() if b)}"
+    fault = "installer-fault-rmtree" if pr["installer-fault-rmtree"] else None
+    ctx.require(v["ed"] is None, "two participants hold the same ethertype", case, seen, fault)
+    ctx.require(v["si"] is None, "two participants are in the install section at once", case, seen, fault)
+    ctx.require(v["iw"] is None, "a participant runs without the dispatcher attached / its program table pinned",
+                case, seen, "leaver-starter-race" if pr["leaver-starter-race"] else fault)
+    if v["fw"] is not None:
+        o = obs[v["fw"]]
+        ws = [p["win"] for p in o["procs"] if p["running"]]
+        same = len({w[0] for w in ws}) != len(ws)
+        cls = ("fmmu-create-window" if pr["fmmu-create-window"] else None) if same else \
+              ("fmmu-window-overflow" if pr["fmmu-window-overflow"] else None)
+        ctx.require(False, "logical address windows of two running participants overlap", case, seen, cls)
+    return line, v, pr, m
+
+
+def gen(rng):
+    n = rng.choice([2, 2, 3, 3, 3, 4])
+    cfgs = []
+    for _ in range(n):
+        r = rng.random()
+        naddr = rng.randrange(0, 4) if r < 0.85 else rng.choice([WINDOW_GROUPS - 1, WINDOW_GROUPS, WINDOW_GROUPS + 5, 2 * WINDOW_GROUPS])
+        cfgs.append({"et": [rng.randrange(0x3000, 0x3003) for _ in range(rng.randrange(0, 4))],
+                     "fm": [rng.randrange(1, 5) for _ in range(rng.randrange(0, 4))],
+                     "naddr": naddr, "attach_fails": rng.random() < 0.03})
+    r = rng.random()
+    if r < 0.6:
+        fm0 = None
+    elif r < 0.9:
+        b = bytearray(64)
+        for _ in range(rng.randrange(0, 5)):
+            k = rng.randrange(1, 12)
+            b[k // 8] |= 1 << (k % 8)
+        fm0 = b.hex()
+    else:
+        fm0 = bytes(rng.randrange(256) for _ in range(rng.choice([0, 1, 63, 65]))).hex()
+    sched = []
+    mode = rng.random()
+    total = rng.randrange(20, 40 * n)
+    while len(sched) < total:
+        p = rng.randrange(n)
+        k = 1 if mode < 0.3 else rng.choice([1, 1, 2, 3, 5, 8, 11, 12, 13, 14, 15, 20])
+        sched += [p] * k
+    return {"cfgs": cfgs, "sched": sched, "fm0": fm0}
+
+
+def C(et=(), fm=(), naddr=0, fails=False):
+    return {"et": list(et), "fm": list(fm), "naddr": naddr, "attach_fails": fails}
+
+
+WITNESSES = {
+    # P0 is the last leaver: after its rmdir P1 installs and runs; then P0 detaches P1's dispatcher and unlinks P1's pin
+    "leaver-starter-race": {"cfgs": [C(), C(fm=[7])], "sched": [0] * 14 + [1] * 14 + [0, 0], "fm0": None},
+    # P0 creates the bitmap file; before its initialising write P1 allocates slot 7; the write wipes the bit; P2 gets slot 7 too
+    "fmmu-create-window": {"cfgs": [C(), C(et=[12288], fm=[7]), C(et=[12288, 12289], fm=[7])],
+                           "sched": [0] * 10 + [1] * 16 + [0] + [2] * 16, "fm0": None},
+    # P0 asks for 1024 sync-group addresses: the last one lies in the window of process number 2 (P1)
+    "fmmu-window-overflow": {"cfgs": [C(naddr=WINDOW_GROUPS), C(et=[12288], fm=[2])], "sched": [0] * 11 + [1] * 14, "fm0": None},
+}
+
+
+def nontrivial(m):
+    return sum(1 for tr in m.tr if len(tr) >= 5) >= 2
+
+
+def kind_of(v, pr, m):
+    bad = [k for k in ("ed", "si", "iw", "fw") if v[k] is not None]
+    return ("viol:" + "+".join(bad)) if bad else ("race-window" if any(pr.values()) else "clean")
+
+
+def run(ctx):
+    cases = [dict(w) for w in WITNESSES.values()]
+    # every split point of the last-leaver race: P1 starts after k operations of P0 (k = 11 … 18), P0 continues afterwards
+    for k in range(9, 19):
+        for j in (3, 7, 14):
+            cases.append({"cfgs": [C(), C(et=[12288], fm=[3])], "sched": [0] * k + [1] * j + [0] * 8 + [1] * 20, "fm0": None})
+    for _ in range(ctx.n(500, 20000)):
+        cases.append(gen(ctx.rng))
+    lines = []
+    for c in cases:
+        line, v, pr, m = evaluate(ctx, c)
+        lines.append(line)
+        ctx.case(c, nontrivial=nontrivial(m), kind=kind_of(v, pr, m))
+        for tr in m.tr:
+            for t in tr:
+                ctx.stats["op:" + t.split(":")[0]] += 1
+    model = ctx.drive(DRIVER, cases, "parallel run")
+    if model is not None:
+        for c, i, mo in zip(cases, lines, model):
+            ctx.agree("operation traces, final state and first violating prefixes", c, i, mo)
+
+
+def replay(ctx, case):
+    line, v, pr, m = evaluate(ctx, case)
+    return {"result": line, "violations": v, "classes": sorted(k for k, b in pr.items() if b)}
